@@ -226,6 +226,8 @@ class EReject(Engine):
         elif how in ('arr_set', 'arr_append', 'arr_insert', 'arr_extend'):
             d = self.arr.dtype
             ev.update(v=boundary_values(g, d.name, d.bitlength), i=g.int(-2, 5), v2=boundary_values(g, d.name, d.bitlength), scaled_first=g.chance(0.25))
+            if how == 'arr_extend':
+                ev.update(via=g.pick(['list', 'list', 'tuple', 'iter', 'gen']), tail=g.int(0, 2))
         elif how == 'digits':
             # a digit string with (or without) one character that is not a digit of the base, through every route
             name = g.pick(['hex', 'bin', 'oct'])
@@ -518,9 +520,16 @@ class EReject(Engine):
                 # a value that does not fit is rejected and nothing changes, wherever it stands in the iterable
                 if expect and not ok2:
                     expect = False
-                elif expect and ok2:
-                    want_len = len(before['arr']) + 2 * d.bitlength
-                st, r = call(self.arr.extend, [v, v2])
+                tail = ev.get('tail', 0) if ev.get('tail', 0) in (0, 1, 2) else 0
+                seq = [v, v2] + [0] * tail
+                if expect and ok2:
+                    want_len = len(before['arr']) + len(seq) * d.bitlength
+                # the values may come from a one-shot producer: what was taken from it before the refusal cannot be asked for again
+                via = ev.get('via', 'list')
+                src = tuple(seq) if via == 'tuple' else iter(seq) if via == 'iter' else (x for x in seq) if via == 'gen' else seq
+                if via in ('iter', 'gen'):
+                    trig = how + '|one-shot-iterable'
+                st, r = call(self.arr.extend, src)
             if expect is False:
                 self.probe('array_write_rejected')
         elif how == 'digits':
